@@ -1,7 +1,7 @@
 (* C09 property theorems: statements only (proofs: C09/Proofs.v over an arbitrary
    commutative ring, C09/Cap.v for the sweep machine of C09/Model.v). *)
 From Coq Require Import ZArith Arith List Bool Ring.
-From QV Require Import Base.Sums C09.Model C09.Proofs C09.Cap C09.Trunc.
+From QV Require Import Base.Sums C09.Model C09.Proofs C09.Cap C09.Trunc C09.RecordModel C09.Record.
 Import ListNotations.
 
 Section C09.
@@ -193,6 +193,60 @@ Theorem C09_direct_error_single_truncation_partial :
 Proof. exact tail_norm2. Qed.
 Print Assumptions C09_direct_error_single_truncation_partial.
 
+(* ---- the canonical-centre record info["cur_orthog"] shared between calls (C09/RecordModel.v) ----
+   Contracts (validated on every run by the harness, not proved): QR / LQ factors are isometries,
+   the compression of a region leaves the canonical form its sweep direction promises,
+   calc_current_orthog_center reports true facts. *)
+
+(* every chain length, every history of canonicalize / sub-operator applications (either sweep
+   direction) / expectation queries (on a copy or in place, any set of terms) sharing one record:
+   a record that is true of the state stays true of the state *)
+Theorem C09_record_truthful_every_history : forall (L : nat) (ops : list op) (s : mstate),
+  inv L s -> Forall (op_ok L) ops -> inv L (run_ops ops s).
+Proof. exact record_truthful_every_history. Qed.
+Print Assumptions C09_record_truthful_every_history.
+
+(* in particular from every state an observed history starts from (nothing known, or a measured pair) *)
+Theorem C09_record_truthful_from_any_start : forall (L : nat) (r : rcd) (ops : list op),
+  rcd_in_range L r -> Forall (op_ok L) ops -> inv L (run_ops ops (init_state L r)).
+Proof. exact record_truthful_from_any_start. Qed.
+Print Assumptions C09_record_truthful_from_any_start.
+
+(* canonicalize((w1, w2), info): whatever true record it started from (missing, None, "calc", a
+   pair), it ends with a pair inside [min w, max w] that is true of the moved state *)
+Theorem C09_canonicalize_records_true_range : forall L dcalc w1 w2 calc s,
+  inv L s -> w1 < L -> w2 < L -> fst calc < L -> snd calc < L ->
+  canon_post L (Nat.min w1 w2) (Nat.max w1 w2) (canonicalize dcalc w1 w2 calc s).
+Proof. exact canonicalize_spec. Qed.
+Print Assumptions C09_canonicalize_records_true_range.
+
+(* gate_with_submpo / gate_nonlocal on sites si..sf: the record is the single site the sweep
+   direction ends on (si, or sf when sweep_reverse) and the whole chain is canonical around it *)
+Theorem C09_submpo_record_and_form : forall L w1 w2 (rv : bool) calc s,
+  inv L s -> w1 < L -> w2 < L -> fst calc < L -> snd calc < L ->
+  let c := if rv then Nat.max w1 w2 else Nat.min w1 w2 in
+  let s' := submpo w1 w2 rv calc s in
+  length (fst s') = L /\ snd s' = RPair c c /\ canonical_around c L (fst s').
+Proof. exact submpo_spec. Qed.
+Print Assumptions C09_submpo_record_and_form.
+
+(* ... and the direction matters: after a reversed sweep over >= 2 sites the forward record
+   (si, si) claims isometries that no contract guarantees *)
+Theorem C09_submpo_reverse_first_site_record_false : forall L w1 w2 calc s,
+  inv L s -> w1 < L -> w2 < L -> w1 <> w2 -> fst calc < L -> snd calc < L ->
+  ~ truthful L (fst (submpo w1 w2 true calc s)) (RPair (Nat.min w1 w2) (Nat.min w1 w2)).
+Proof. exact submpo_reverse_first_site_record_false. Qed.
+Print Assumptions C09_submpo_reverse_first_site_record_false.
+
+(* an expectation query with inplace=False leaves state and record alone; a state about which
+   nothing is known admits only the trivial record (0, L-1), so handing the centre of the moved
+   COPY to the caller's record would be false *)
+Theorem C09_expectation_on_copy_keeps_record : forall (L a b : nat) (s : mstate),
+  apply_op OExpCopy s = s
+  /\ (truthful L (generic L) (RPair a b) -> Nat.min a b = 0 /\ L - 1 <= Nat.max a b).
+Proof. exact (fun L a b s => conj eq_refl (generic_only_trivial_record L a b)). Qed.
+Print Assumptions C09_expectation_on_copy_keeps_record.
+
 (* non-vacuity: an executable instance over Z[i] (block-diagonal sum of two 2-site chains,
    the sweep machine on a 4-site chain, the multiply plan) *)
 Example C09_examples :
@@ -202,5 +256,10 @@ Example C09_examples :
   /\ multiply_plan 5 8 false true = MRaises /\ multiply_plan 1 8 false true = MOk 1
   /\ site_sum_check false true [1; 2; 2] [(1,0); (2,0); (3,0); (4,0)]%Z [1; 1; 2] [(5,0); (6,0)]%Z
        [1; 3; 2] [(1,0); (2,0); (3,0); (4,0); (5,0); (6,0)]%Z = true
-  /\ matvec 2 2 [(1,0); (2,0); (3,0); (4,0)]%Z [(1,0); (0,1)]%Z = [(1,2); (3,4)]%Z.
+  /\ matvec 2 2 [(1,0); (2,0); (3,0); (4,0)]%Z [(1,0); (0,1)]%Z = [(1,2); (3,4)]%Z
+  /\ run_ops [OSub 2 6 true (0, 7); OSub 3 4 false (0, 7)] (generic 8, RUnset)
+     = ([SL; SL; SL; SN; SR; SR; SR; SR], RPair 3 3)
+  /\ snd (run_ops [OSub 2 6 true (0, 7)] (generic 8, RUnset)) = RPair 6 6
+  /\ run_ops [OExpIn [(5, 6); (6, 7); (7, 7)] (0, 7); OExpCopy; OExpIn [(0, 1); (4, 1)] (0, 7)] (generic 8, RUnset)
+     = ([SL; SN; SR; SR; SR; SR; SR; SR], RPair 1 1).
 Proof. vm_compute. repeat split. Qed.
